@@ -1,41 +1,86 @@
 #!/usr/bin/env python3
 """mk_frozen.py : (re)write harness/frozen_glue.json from /repo's current sources.
-For every file a property is anchored in (properties.jsonl), every function of at least three statements that no generator /
-assertion / harness module refers to by name is recorded with its source (docstrings stripped, ast.unparse).  harness/gen_frozen.py
-compares the current source with this record on every run for the files the checked property is anchored in: a change in this
-glue cannot go unnoticed (it breaks an obligation; the violation search then looks for a failing input).  Run this tool only
-after a deliberate change of /repo (a fix: commit)."""
-import ast, glob, json, os, sys
+
+For every file a property is anchored in (properties.jsonl) the record holds
+  functions : the full source (decorators, signature with its defaults, body; docstrings stripped, ast.unparse) of every function
+              that NO generator reads through py2coq.load_function / assert_body while regenerating the models of all properties
+              (the registry is taken by actually running every generator module, not by looking for names in their text:
+              seeded/C20_m5 and seeded/C01_m4 changed functions that were only *mentioned* somewhere);
+  headers   : decorators and signature of every function, also of those a generator reads (a translator of a body does not see
+              `@property` becoming `@cached_property`, nor a mutable default argument);
+  statements: the module-level and class-level statements that are not functions, classes, imports or docstrings (constants,
+              tables of synonyms, class attributes).
+harness/gen_frozen.py compares the current source with this record on every run, for the files the checked property is anchored
+in: a change in this glue cannot go unnoticed (it breaks an obligation; the violation search then looks for a failing input).
+Run this tool only after a deliberate change of /repo (a fix: commit)."""
+import ast, glob, json, os, re, sys
 V = os.path.dirname(os.path.dirname(os.path.abspath(__file__)))
-sys.path.insert(0, os.path.join(V, 'tools'))
+sys.path.insert(0, os.path.join(V, 'tools')); sys.path.insert(0, os.path.join(V, 'harness'))
+import py2coq
 from py2coq import strip_docstring
 repo = sys.argv[1] if len(sys.argv) > 1 else '/repo'
-files = {}
-for l in open(os.path.join(V, 'properties.jsonl')):
-    d = json.loads(l)
-    for f in d['anchors']['files']: files.setdefault(f, []).append(d['id'])
-# "referred to" = named as a whole word in a generator / assertion module (harness/gen_*.py, tools/py2coq.py).  A mention in a p_c*.py
-# module (which only *runs* the function) does not pin its body: seeded/C20_m5 changed check_for_duplicate_table_forms unnoticed
-# because p_c20.py named it in a comment.
-import re
-known_text = ''.join(open(p).read() for p in glob.glob(os.path.join(V, 'harness', 'gen_*.py')) if not p.endswith('gen_frozen.py')) \
-        + open(os.path.join(V, 'tools', 'py2coq.py')).read()
-known = set(re.findall(r'[A-Za-z_][A-Za-z_0-9]*', known_text))
-out = {}
-for f in sorted(files):
-    p = os.path.join(repo, f)
-    if not os.path.exists(p): continue
-    tree = ast.parse(open(p, encoding='utf-8').read())
+
+def fn_text(fn):
+    c = ast.FunctionDef(name=fn.name, args=fn.args, body=strip_docstring(fn.body) or [ast.Pass()], decorator_list=fn.decorator_list, returns=fn.returns, type_comment=None)
+    return ast.unparse(ast.fix_missing_locations(c))
+def fn_header(fn):
+    c = ast.FunctionDef(name=fn.name, args=fn.args, body=[ast.Pass()], decorator_list=fn.decorator_list, returns=fn.returns, type_comment=None)
+    return ast.unparse(ast.fix_missing_locations(c))
+def is_doc(st): return isinstance(st, ast.Expr) and isinstance(getattr(st, 'value', None), ast.Constant) and isinstance(st.value.value, str)
+
+def snapshot(repo, relfile):
+    """(functions {qualname: full text}, headers {qualname: header}, statements {scope: [text]}) of one file"""
+    tree = ast.parse(open(os.path.join(repo, relfile), encoding='utf-8').read())
+    fns, heads, stmts = {}, {}, {}
     def walk(node, prefix):
+        scope = prefix or '<module>'
         for ch in ast.iter_child_nodes(node):
             if isinstance(ch, (ast.FunctionDef, ast.ClassDef)):
                 q = (prefix + '.' if prefix else '') + ch.name
                 if isinstance(ch, ast.FunctionDef):
-                    body = strip_docstring(ch.body)
-                    nst = sum(1 for x in ast.walk(ast.Module(body=body, type_ignores=[])) if isinstance(x, ast.stmt))
-                    if nst >= 3 and ch.name not in known:
-                        out.setdefault(f, {})[q] = '\n'.join(ast.unparse(st) for st in body)
+                    fns[q] = fn_text(ch); heads[q] = fn_header(ch)
+                else:
+                    stmts.setdefault(q, []).append('class %s(%s)' % (ch.name, ', '.join(ast.unparse(b) for b in ch.bases)))
+                    if ch.decorator_list: stmts[q].append('decorators ' + ', '.join(ast.unparse(d) for d in ch.decorator_list))
                 walk(ch, q)
+            elif isinstance(node, (ast.Module, ast.ClassDef)) and isinstance(ch, ast.stmt) and not isinstance(ch, (ast.Import, ast.ImportFrom)) and not is_doc(ch):
+                stmts.setdefault(scope, []).append(ast.unparse(ch))
     walk(tree, '')
-json.dump({'anchored_in': {f: files[f] for f in out}, 'functions': out}, open(os.path.join(V, 'harness', 'frozen_glue.json'), 'w'), indent=1, sort_keys=True)
-print(sum(len(v) for v in out.values()), 'functions in', len(out), 'files')
+    return fns, heads, stmts
+
+if __name__ == '__main__':
+    files = {}
+    for l in open(os.path.join(V, 'properties.jsonl')):
+        d = json.loads(l)
+        for f in d['anchors']['files']: files.setdefault(f, []).append(d['id'])
+    # source files no property names as an anchor, attached to the properties whose behaviour runs through them
+    for f, pids in {'atsim/potentials/config/_modifier_registry.py': ['C09', 'C16'], 'atsim/potentials/referencedata/_data.py': ['C03'],
+                    'atsim/potentials/referencedata/__init__.py': ['C03'], 'atsim/potentials/config/__init__.py': ['C09', 'C16']}.items():
+        files.setdefault(f, []).extend(pids)
+    # registry: what the generators really read
+    LOADED = set()
+    orig = py2coq.load_function
+    def rec(r, relfile, qualname):
+        LOADED.add((relfile, qualname)); return orig(r, relfile, qualname)
+    py2coq.load_function = rec
+    mods = set()
+    for p in glob.glob(os.path.join(V, 'harness', 'p_c*.py')):
+        m = re.search(r"GENMODS\s*=\s*\[(.*?)\]", open(p).read(), flags=re.S)
+        if m: mods.update(re.findall(r"'(\w+)'", m.group(1)))
+    for mn in sorted(mods - {'gen_frozen'}):
+        mod = __import__(mn)
+        if hasattr(mod, 'load_function'): mod.load_function = rec
+        for pid in ['C%02d' % i for i in range(1, 21)]:
+            (mod.generate_for(repo, pid) if hasattr(mod, 'generate_for') else mod.generate(repo))      # a refusal here is an error: fix it first
+            if not hasattr(mod, 'generate_for'): break
+    out = {'anchored_in': {}, 'functions': {}, 'headers': {}, 'statements': {}}
+    for f in sorted(files):
+        if not os.path.exists(os.path.join(repo, f)): continue
+        fns, heads, stmts = snapshot(repo, f)
+        out['anchored_in'][f] = files[f]
+        out['functions'][f] = {q: t for q, t in fns.items() if (f, q) not in LOADED}
+        out['headers'][f] = heads
+        out['statements'][f] = stmts
+    json.dump(out, open(os.path.join(V, 'harness', 'frozen_glue.json'), 'w'), indent=1, sort_keys=True)
+    print(sum(len(v) for v in out['functions'].values()), 'functions frozen,', sum(len(v) for v in out['headers'].values()), 'headers,',
+          sum(len(x) for v in out['statements'].values() for x in v.values()), 'statements in', len(out['functions']), 'files;', len(LOADED), 'functions are read by generators')
